@@ -238,3 +238,22 @@ func (h *g3hist) GoodG3Ack(seq uint16) {
 func (h *g3hist) BadG3Ack(seq uint16) {
 	h.mark(h.bySeq[seq])
 }
+
+const (
+	fxDefaultMin = 5_000
+	fxDefaultMax = 50_000_000
+)
+
+// GoodH1New clamps the start value with the bounds that were just configured; BadH1New clamps it with the package
+// defaults, so a legal configuration outside the defaults starts outside its own range.
+func GoodH1New(initial, lo, hi int) *fxEstimator {
+	e := &fxEstimator{rate: initial, min: lo, max: hi}
+	e.rate = clampFx(e.rate, e.min, e.max)
+	return e
+}
+
+func BadH1New(initial, lo, hi int) *fxEstimator {
+	e := &fxEstimator{rate: initial, min: lo, max: hi}
+	e.rate = clampFx(e.rate, fxDefaultMin, fxDefaultMax)
+	return e
+}
